@@ -56,15 +56,17 @@ for _v, _c in (("x", 1.0), ("x", -1.0), ("y", 1.0), ("y", -1.0)):
 RAYS = {k for k in LINES if k.startswith("ray ")}
 SHIFTED = {k for k in LINES if k.startswith("line ")}
 ALL = set(AXES_DIAGS)
+EVERY = AXES_DIAGS | RAYS | SHIFTED
 DECIDED = {
-    "absolute": ALL, "square": ALL, "sqrt": ALL, "atan": ALL, "atanh": ALL, "asin": ALL, "acos": ALL, "asinh": ALL, "acosh": ALL,
+    "absolute": EVERY, "square": EVERY, "sqrt": EVERY, "atan": EVERY, "atanh": EVERY, "asin": EVERY, "acos": EVERY, "asinh": EVERY, "acosh": EVERY,
     "exp": {"real axis y=+0", "real axis y=-0"},
 }
+QUICK_RAYS = {k for k in RAYS if any(k.endswith(f"2**{e}*x") for e in (-8, -1, 1, 8))}
 UNDECIDED = {
     "log": "the |z| ~ 1 branch is a compensated (Dekker/2Sum) evaluation of x*x + y*y - 1 whose cancellation interval arithmetic cannot follow on boxes wider than a point",
     "log1p": "same compensated kernel; numpy's complex log1p reference is itself inaccurate for tiny arguments",
     "log2": "built on log", "log10": "built on log",
-    "exp (imaginary axis, diagonals)": "cos/sin of arguments beyond 2**24 change sign between adjacent floats: no box wider than a point is decidable",
+    "exp (off the real axis)": "cos/sin of arguments beyond 2**24 change sign between adjacent floats: no box wider than a point is decidable",
 }
 DELTA = {"quick": 2.0 ** -6, "thorough": 2.0 ** -9}
 
@@ -217,15 +219,22 @@ def _analyse(root, ctype, name, line, tier):
     ftype = {"complex64": "float32", "complex128": "float64"}[ctype]
     fmt = Fmt(ftype)
     dom = Domain(fmt)
-    res = dict(refuted=[], ok=None, error=None, stats=dict(boxes=0, proved=0, points=0, levels=0), subnormal=0)
+    res = dict(refuted=[], ok=None, error=None, stats=dict(boxes=0, proved=0, points=0, levels=0), regions={})
     try:
         tre, tim, var = line_terms(fa, name, ctype, line)
         judge = make_judge(name, line, tre, tim, var, fmt, dom, DELTA[tier])
         lo0, hi0 = initial_boxes(fmt)
         sub_lo, sub_hi = -int(fmt.to_ord(fmt.smallest)), int(fmt.to_ord(fmt.smallest)) - 1
+        sq = fmt.ft(np.sqrt(np.float64(fmt.smallest)))
+        pole_lo, pole_hi = -int(fmt.to_ord(sq)) - 1, int(fmt.to_ord(sq))
+        near_pole = (name == "atanh" and line in ("line x=1", "line x=-1")) or (name == "atan" and line in ("line y=1", "line y=-1"))
 
         def known_region(lo_, hi_):
-            return sub_lo <= lo_[0] and hi_[0] <= sub_hi
+            if near_pole and pole_lo <= lo_[0] and hi_[0] <= pole_hi:
+                return "next to the pole, where the square of the offset underflows"
+            if sub_lo <= lo_[0] and hi_[0] <= sub_hi:
+                return "subnormal inputs"
+            return None
 
         try:
             out = refine(lo0, hi0, judge, max_boxes=12_000_000, region=known_region)
@@ -235,8 +244,7 @@ def _analyse(root, ctype, name, line, tier):
                 res["error"] = f"{name}[{ctype}] {line}: {e}; the abstraction is too coarse for this shape of the algorithm"
                 return res
         res["refuted"] = [(str(lo_), info) for lo_, hi_, info in out.refuted[:4]]
-        res["subnormal"] = out.region_refuted
-        res["subnormal_example"] = out.region_example
+        res["regions"] = {k: (v[0], v[1]) for k, v in out.region_refuted.items()}
         if not out.refuted and out.unknown:
             res["error"] = f"{name}[{ctype}] {line}: {len(out.unknown)} point(s) undecided within the library-function slack, e.g. {out.unknown[0][2]}"
             return res
@@ -258,7 +266,8 @@ def run(repo, tier):
     for name in DECIDED:
         if not repo.has(REL, name):
             raise AnalysisError(f"anchor vanished: algorithms.{name}")
-    tasks = [(repo.root, ctype, name, line, tier) for ctype in ("complex64", "complex128") for name in DECIDED for line in sorted(DECIDED[name])]
+    tasks = [(repo.root, ctype, name, line, tier) for ctype in ("complex64", "complex128") for name in DECIDED for line in sorted(DECIDED[name])
+             if tier == "thorough" or line not in RAYS or line in QUICK_RAYS]
     jobs = int(os.environ.get("VERIF_JOBS", "0") or 0) or min(len(tasks), os.cpu_count() or 1)
     if jobs > 1:
         with mp.get_context("fork").Pool(jobs) as pool:
@@ -266,14 +275,16 @@ def run(repo, tier):
     else:
         results = [_analyse(*t) for t in tasks]
     total = dict(boxes=0, proved=0, points=0)
+    regional = {}
     for (root, ctype, name, line, _), res in zip(tasks, results):
         where = f"functional_algorithms/{REL}::{name}"
         if res["error"] and not res["refuted"]:
             raise AnalysisError(res["error"])
         key = f"{name}[{ctype}] {line}"
-        if res["subnormal"]:
-            r.ob("R1.1", key + " subnormal inputs", False,
-                 f"{res['subnormal']} box(es)/point(s) inside the subnormal range are wrong beyond the coarse bound, e.g. {res['subnormal_example']}", where)
+        for rg, (cnt, example) in res["regions"].items():
+            ent = regional.setdefault((name, ctype, rg), dict(lines=[], count=0, example=example, where=where))
+            ent["lines"].append(line)
+            ent["count"] += cnt
         if res["refuted"]:
             for lo_, info in res["refuted"]:
                 r.ob("R1.1", key + f" box {lo_}", False, info, where)
@@ -281,6 +292,10 @@ def run(repo, tier):
             r.ob("R1.1", key, True, res["ok"], where)
         for k in ("boxes", "proved", "points"):
             total[k] += res["stats"][k]
+    # failures inside a named input region are one finding per (function, type, region), whatever lines show them
+    for (name, ctype, rg), ent in sorted(regional.items()):
+        r.ob("R1.1", f"{name}[{ctype}] {rg}", False,
+             f"{ent['count']} box(es)/point(s) on {len(ent['lines'])} line(s) ({', '.join(sorted(ent['lines'])[:6])}{' ...' if len(ent['lines']) > 6 else ''}) are wrong beyond the coarse bound, e.g. {ent['example']}", ent["where"])
     r.info("R1.1", f"boxes evaluated {total['boxes']}, proved {total['proved']} (single points {total['points']}); {len(tasks)} (type, function, line) tasks, {jobs} worker process(es)")
     for k, why in UNDECIDED.items():
         r.info("R1.1", f"not decided: {k} - {why}")
